@@ -202,11 +202,18 @@ def _run_build(env, assign, state, res, out, before, relative, tool):
         case['names'] = env.names
     if any(c != 'none' for c in assign):
         res.nontriv((tuple(assign), state))
+    from pico8 import util
+    import zlib
+    if zlib.crc32(repr((assign, state, relative)).encode()) % 5 == 0:
+        args = ['--debug'] + args       # every fifth build runs under --debug (logging may not change the result)
+        case['debug'] = True
     try:
         rcode = tool.main(args)
     except BaseException as e:
         res.violation('C13|build-raise|%s|out=%s' % (type(e).__name__, state), 'build %r raised %r' % (args[2:], e), case)
         return
+    finally:
+        util.set_verbosity(util.VERBOSITY_QUIET)
     if rcode != 0:
         res.violation('C13|build-failed|out=%s' % state, 'build %r returned %r' % (args[2:], rcode), case)
         return
